@@ -79,6 +79,13 @@ def r1_adoption_precedes_start(chk: Check):
                     "the adoption branch is reachable without the success marker having been turned into DONE: a job that succeeded earlier waits for whatever process re-used its pid", loc)
 
 
+def _anc2(node):
+    p = getattr(node, "_parent", None)
+    while p is not None:
+        yield p
+        p = getattr(p, "_parent", None)
+
+
 def r2_adoption_decision(chk: Check):
     tree = chk.tree
     f = tree.func("commandline", "CommandLineJob.aio_process")
@@ -144,6 +151,14 @@ def r2_adoption_decision(chk: Check):
         chk.require(ends == {want} and not unk, chk.fkey(st, f"alive={alive}"),
                     f"PsutilProcess.aio_state with a process that is {'alive' if alive else 'gone'} gives {sorted(ends)}{' depending on ' + str(unk) if unk else ''}; expected `{want}`: "
                     "a live job that is not recognised as running is not adopted but launched a second time", chk.loc(st.module, st.node))
+    # a process file that cannot be parsed (scheduler killed while writing it) means `no known process`, not an exception that leaves the job
+    # without a final state
+    loads = [c for c in fn_calls(f.node) if dotted(c.func) == "json.loads"]
+    for c in loads:
+        covered = any(isinstance(a, ast.Try) and any(h.type is None or any(k in src(h.type) for k in ("ValueError", "JSONDecodeError", "Exception")) for h in a.handlers)
+                      and any(c is y for st in a.body for y in ast.walk(st)) for a in _anc2(c))
+        chk.require(covered, chk.fkey(f, "unreadable process file"), "json.loads of the process file is not protected: an empty file left by a scheduler killed while writing it makes aio_submit die "
+                    "and the job never reaches a final state", chk.loc(f.module, c))
     fs = tree.func("connectors.local", "LocalProcess.fromspec")
     hs = [h for h in ast.walk(fs.node) if isinstance(h, ast.ExceptHandler)]
     ok = any(h.type is not None and "NoSuchProcess" in src(h.type) and not any(isinstance(x, ast.Raise) for x in ast.walk(h)) for h in hs)
